@@ -447,7 +447,7 @@ def main(run_fn, prop):
     ap.add_argument("--tier", default=os.environ.get("VERIF_TIER", "quick"), choices=["quick", "thorough"])
     ap.add_argument("--seed", type=int, default=int(os.environ.get("VERIF_SEED", "1") or 1))
     ap.add_argument("--replay", default=None)
-    a = ap.parse_args(sys.argv[2:] if len(sys.argv) > 1 and re.match(r"C\d+", sys.argv[1]) else None)
+    a = ap.parse_args(sys.argv[2:] if len(sys.argv) > 1 and re.match(r"[A-Z]\d+$", sys.argv[1]) else None)
     replay_data = None
     if a.replay:
         # a replay artefact records tier and seed; every random choice derives from the seed, so re-running
